@@ -28,6 +28,8 @@ CHECKS = {
             "field choices, key presence, emptiness and word counts of the opaque strings are forked; holds for strings of any length"),
     "C08": ("5/C08", "symbolic execution (symx) non-interference harness: the same symbolic payload created twice in one path under two independent copies of clock, listing order, location, path spelling, cwd, trackers, outfile, progress; z3",
             "sizes, both clocks and both listing permutations are solver variables; path spellings are a finite grammar"),
+    "C09": ("5/C09", "symbolic execution (symx) history harness: op1; filesystem change; op2 inside one World (= one process, module and class state kept) vs the same op2 in a freshly loaded World on a copy of the state; z3",
+            "file sizes before and after each change are solver variables; operations and change kinds are configurations"),
     "C10": ("5/C10", "symbolic execution (symx): pairwise equality of creators' metafiles and of all hashers' outputs on the same symbolic payload; z3",
             "file sizes and listing order are solver variables"),
     "C04": ("5/C04-C05-C16", "symbolic execution (symx) of Checker/FeedChecker/HashChecker/FileHasher on symbolic sizes and damage positions; z3 decides 'result < 100'",
